@@ -181,6 +181,8 @@ func snapNew(p *Program, obs *obSet) {
 				obs.fail(keyObj, p.InstrPos(in), "snapshotFile.tmpDir is not the directory made by os.MkdirTemp", v.Path(), "tmpDir: "+describe(v.Fr, stored[tmpFld]))
 			case df == nil || !inTmp(df, dff):
 				obs.fail(keyObj, p.InstrPos(in), "snapshotFile.file is not a file created inside the temporary directory", v.Path(), "file: "+describe(v.Fr, stored[fileFld]))
+			case !finalOK && stored[finalFld] == nil && closeNamesSibling(p, tmpFld, finalFld):
+				obs.ok(keyObj, p.InstrPos(in), "tmpDir is the os.MkdirTemp directory, the data file is created inside it, and the final name is chosen by Close as a sibling of tmpDir (filepath.Join(filepath.Dir(tmpDir), …))")
 			case !finalOK:
 				obs.undecided(keyObj, p.InstrPos(in), "snapshotFile.dir is not filepath.Join(snapshotDir, …)", "dir: "+describe(v.Fr, stored[finalFld]))
 			default:
@@ -446,9 +448,260 @@ func ruleSnapPick() *Rule {
 			obs := newObSet("SNAP-PICK")
 			snapPickIndex(p, obs)
 			snapPickDirectories(p, obs)
+			snapPickKey(p, obs)
 			return obs.list()
 		},
 	}
+}
+
+// closeNamesSibling: (*snapshotFile).Close assigns the final directory field itself, to
+// filepath.Join(filepath.Dir(<tmpDir field>), …): the published directory is a sibling of the temporary one, i.e. it
+// lies in the snapshot directory.
+func closeNamesSibling(p *Program, tmpFld, finalFld *types.Var) bool {
+	fn := p.Func("(*snapshotFile).Close")
+	if fn == nil {
+		return false
+	}
+	for _, b := range fn.Blocks {
+		for _, in := range b.Instrs {
+			st, ok := in.(*ssa.Store)
+			if !ok {
+				continue
+			}
+			fa, ok := st.Addr.(*ssa.FieldAddr)
+			if !ok || fieldOf(fa.X.Type(), fa.Field) != finalFld {
+				continue
+			}
+			join, ok := st.Val.(*ssa.Call)
+			if !ok || calleeName(join.Common()) != "path/filepath.Join" || len(join.Common().Args) != 1 {
+				return false
+			}
+			elems := varargElems(join.Common().Args[0])
+			if len(elems) < 2 {
+				return false
+			}
+			dir, ok := elems[0].(*ssa.Call)
+			if !ok || calleeName(dir.Common()) != "path/filepath.Dir" {
+				return false
+			}
+			ld, ok := dir.Common().Args[0].(*ssa.UnOp)
+			if !ok || ld.Op != token.MUL {
+				return false
+			}
+			tfa, ok := ld.X.(*ssa.FieldAddr)
+			return ok && fieldOf(tfa.X.Type(), tfa.Field) == tmpFld
+		}
+	}
+	return false
+}
+
+// snapPickKey decides when the ordering key of a published snapshot is taken. SnapshotFile() returns the directory
+// that sorts last, and the property demands "the most recent snapshot whose writer was closed": with two writers
+// open at once (takeSnapshot runs with the node mutex released while InstallSnapshot may create, fill and close
+// another file) the name must therefore be chosen when the writer is CLOSED. A name fixed at creation orders the
+// snapshots by creation instead, so the writer that was created first and closed last loses.
+func snapPickKey(p *Program, obs *obSet) {
+	const key = "ordering key of a published snapshot directory is taken when its writer is closed, in (*snapshotFile).Close"
+	fn := p.Func("(*snapshotFile).Close")
+	if fn == nil {
+		obs.lost("(*snapshotFile).Close")
+		return
+	}
+	var ren *ssa.Call
+	for _, b := range fn.Blocks {
+		for _, in := range b.Instrs {
+			if c := callNamed(in, "os.Rename"); c != nil {
+				ren = c
+			}
+		}
+	}
+	if ren == nil {
+		obs.lost("os.Rename in (*snapshotFile).Close")
+		return
+	}
+	// does v (computed in fn) depend on a clock read made in fn or its callees?
+	var clockIn func(v ssa.Value, depth int, seen map[ssa.Value]bool) bool
+	var fnReadsClock func(f *ssa.Function, depth int) bool
+	fnReadsClock = func(f *ssa.Function, depth int) bool {
+		if f == nil || depth > 4 {
+			return false
+		}
+		for _, b := range f.Blocks {
+			for _, in := range b.Instrs {
+				c, ok := in.(*ssa.Call)
+				if !ok {
+					continue
+				}
+				switch calleeName(c.Common()) {
+				case "time.Now":
+					return true
+				}
+				if cal := c.Common().StaticCallee(); cal != nil && p.InScope[cal] && fnReadsClock(cal, depth+1) {
+					return true
+				}
+			}
+		}
+		return false
+	}
+	clockIn = func(v ssa.Value, depth int, seen map[ssa.Value]bool) bool {
+		if v == nil || seen[v] || depth > 12 {
+			return false
+		}
+		seen[v] = true
+		switch x := v.(type) {
+		case *ssa.Call:
+			if calleeName(x.Common()) == "time.Now" {
+				return true
+			}
+			if cal := x.Common().StaticCallee(); cal != nil && p.InScope[cal] && fnReadsClock(cal, 0) {
+				return true
+			}
+			for _, a := range x.Common().Args {
+				if clockIn(a, depth+1, seen) {
+					return true
+				}
+			}
+		case *ssa.Phi:
+			for _, e := range x.Edges {
+				if clockIn(e, depth+1, seen) {
+					return true
+				}
+			}
+		case *ssa.Extract:
+			return clockIn(x.Tuple, depth+1, seen)
+		case *ssa.BinOp:
+			return clockIn(x.X, depth+1, seen) || clockIn(x.Y, depth+1, seen)
+		case *ssa.Convert:
+			return clockIn(x.X, depth+1, seen)
+		case *ssa.MakeInterface:
+			return clockIn(x.X, depth+1, seen)
+		case *ssa.Slice:
+			return clockIn(x.X, depth+1, seen)
+		case *ssa.Alloc:
+			// an array or variable: whatever is stored into it or into its elements
+			if refs := x.Referrers(); refs != nil {
+				for _, r := range *refs {
+					switch y := r.(type) {
+					case *ssa.Store:
+						if y.Addr == ssa.Value(x) && clockIn(y.Val, depth+1, seen) {
+							return true
+						}
+					case *ssa.IndexAddr:
+						if y.Referrers() != nil {
+							for _, rr := range *y.Referrers() {
+								if st, ok := rr.(*ssa.Store); ok && clockIn(st.Val, depth+1, seen) {
+									return true
+								}
+							}
+						}
+					}
+				}
+			}
+			return false
+		case *ssa.UnOp:
+			if x.Op == token.MUL {
+				switch ad := x.X.(type) {
+				case *ssa.Alloc:
+					if refs := ad.Referrers(); refs != nil {
+						for _, r := range *refs {
+							if st, ok := r.(*ssa.Store); ok && st.Addr == ad && clockIn(st.Val, depth+1, seen) {
+								return true
+							}
+						}
+					}
+				case *ssa.IndexAddr:
+					// element of a varargs array: the values stored into the array
+					if al := rootAlloc(ad.X); al != nil && al.Referrers() != nil {
+						for _, r := range *al.Referrers() {
+							if ia, ok := r.(*ssa.IndexAddr); ok && ia.Referrers() != nil {
+								for _, rr := range *ia.Referrers() {
+									if st, ok := rr.(*ssa.Store); ok && clockIn(st.Val, depth+1, seen) {
+										return true
+									}
+								}
+							}
+						}
+					}
+				}
+				return false
+			}
+			return clockIn(x.X, depth+1, seen)
+		}
+		return false
+	}
+	newName := ren.Common().Args[1]
+	if u, ok := newName.(*ssa.UnOp); ok && u.Op == token.MUL {
+		if fa, ok := u.X.(*ssa.FieldAddr); ok {
+			// the field may be assigned in Close itself, before the rename
+			fld := fieldOf(fa.X.Type(), fa.Field)
+			for _, b := range fn.Blocks {
+				for _, in := range b.Instrs {
+					st, ok := in.(*ssa.Store)
+					if !ok {
+						continue
+					}
+					wfa, ok := st.Addr.(*ssa.FieldAddr)
+					if ok && fieldOf(wfa.X.Type(), wfa.Field) == fld && instrBlockDominates(st, ren) && clockIn(st.Val, 0, map[ssa.Value]bool{}) {
+						obs.ok(key, p.InstrPos(ren), "the name the directory is published under is assigned in Close, from a clock read made there")
+						return
+					}
+				}
+			}
+		}
+	}
+	if clockIn(newName, 0, map[ssa.Value]bool{}) {
+		obs.ok(key, p.InstrPos(ren), "the name the directory is published under is computed from a clock read made in Close")
+		return
+	}
+	// a field of the receiver written elsewhere?
+	if u, ok := newName.(*ssa.UnOp); ok && u.Op == token.MUL {
+		if fa, ok := u.X.(*ssa.FieldAddr); ok {
+			fld := fieldOf(fa.X.Type(), fa.Field)
+			var writers []string
+			clockAtCreation := false
+			for _, g := range p.SortedFuncs() {
+				for _, b := range g.Blocks {
+					for _, in := range b.Instrs {
+						st, ok := in.(*ssa.Store)
+						if !ok {
+							continue
+						}
+						wfa, ok := st.Addr.(*ssa.FieldAddr)
+						if !ok || fieldOf(wfa.X.Type(), wfa.Field) != fld {
+							continue
+						}
+						writers = append(writers, FuncName(g)+" ("+p.InstrPos(in)+")")
+						if g != fn && clockIn(st.Val, 0, map[ssa.Value]bool{}) {
+							clockAtCreation = true
+						}
+					}
+				}
+			}
+			if clockAtCreation {
+				obs.fail(key, p.InstrPos(ren), "the directory is published under the name stored in field "+fld.Name()+", which is computed from the clock when the writer is CREATED ("+strings.Join(writers, ", ")+
+					"): of two overlapping writers the one created last sorts last, whichever is closed last, so SnapshotFile() does not return the most recently closed snapshot", nil,
+					"sequence: a := NewSnapshotFile(90,…); b := NewSnapshotFile(50,…); b.Close(); a.Close(); SnapshotFile() returns b (label 50)")
+				return
+			}
+		}
+	}
+	obs.undecided(key, p.InstrPos(ren), "the provenance of the name passed to os.Rename was not recognised (neither a clock read in Close nor a field filled from the clock at creation)")
+}
+
+// instrBlockDominates: a is executed before b on every path to b.
+func instrBlockDominates(a, b ssa.Instruction) bool {
+	if a.Block() == b.Block() {
+		for _, in := range a.Block().Instrs {
+			if in == a {
+				return true
+			}
+			if in == b {
+				return false
+			}
+		}
+		return false
+	}
+	return a.Block().Dominates(b.Block())
 }
 
 func snapPickIndex(p *Program, obs *obSet) {
